@@ -189,6 +189,9 @@ impl Property for C16 {
     fn watchdog_secs(&self) -> u64 {
         600
     }
+    fn shrink_iters(&self) -> u32 {
+        20
+    }
     fn classes(&self) -> Vec<ClassSpec> {
         SET_NAMES.iter().map(|n| cls(n, 16, 2000)).collect()
     }
